@@ -45,6 +45,7 @@ class Ref:
         self.decl = {}
         self.tags = {}
         self.loaded = None      # class predicate of D16 only: flavors each stack shows to the command
+        self.extras = {}        # extra files (-L): (si, flavor, n, v) -> {path: content}
 
     # ---- what a reader sees ---------------------------------------------------------------------
     def listing(self):
@@ -151,8 +152,10 @@ class Ref:
         key = (target, n, v, f)
         old = self.decl.get(key) if self.sees(target, f) else None
         write = True
+        ext = {p: cid for p, cid in c.get("ext") or []}
         if old is not None and not force:
-            conflict = old[0] != d or (table == "default" and old[1] == "none")
+            have = self.extras.get((target, f, n, v))
+            conflict = old[0] != d or (table == "default" and old[1] == "none") or bool(have and have != ext)
             if conflict and not tag:
                 raise Refused()
             write = False
@@ -162,6 +165,8 @@ class Ref:
             self.decl[key] = (d, table)
         if tag:
             self._set_tag(tag, key)
+        if ext:
+            self.extras.setdefault((target, f, n, v), {}).update(ext)
 
     def _untag(self, f, t, n, v, stack, dry):
         if v is not None:
